@@ -199,6 +199,27 @@ Theorem C12_approx_is_tangent_minus_offset (xP mu mu_eq : list R) Gbeta offeq :
 Proof. exact (approx_is_tangent_minus_offset xP mu mu_eq Gbeta offeq). Qed.
 Print Assumptions C12_approx_is_tangent_minus_offset.
 
+(* ---- ExtraGibbsModel: the Gibbs-Thomson energy counts per mole of atoms ------------------------------- *)
+(* the energy per formula unit divided by the atoms per formula unit is the energy per mole of atoms: the
+   equilibrium solver (G) and the sampler (GM) see the same precipitate, for every formula unit *)
+Theorem C12_extra_g_per_atom ast ge n : n <> 0 ->
+  extra_g Rops ast ge n / n = extra_gm Rops ast ge.
+Proof. exact (extra_g_per_atom ast ge n). Qed.
+Print Assumptions C12_extra_g_per_atom.
+
+Theorem C12_extra_shift ast ge d n : n <> 0 ->
+  extra_gm Rops ast (ge + d) - extra_gm Rops ast ge = d /\
+  extra_g Rops ast (ge + d) n / n - extra_g Rops ast ge n / n = d.
+Proof. exact (extra_shift ast ge d n). Qed.
+Print Assumptions C12_extra_shift.
+
+(* hence for a stoichiometric precipitate the GE found by the parallel-tangent construction is the plane
+   distance the sampling method measures, whatever the number of atoms in the formula unit *)
+Theorem C12_tangent_is_plane_distance ast h ge n : n <> 0 ->
+  (extra_g Rops ast ge n = n * h <-> ge = h - extra_gm Rops ast 0).
+Proof. exact (tangent_is_plane_distance ast h ge n). Qed.
+Print Assumptions C12_tangent_is_plane_distance.
+
 (* ---- the executable instance is the real instance on rational inputs --------------------------------- *)
 (* (every float the implementation handles is a rational: what vm_compute returns in the correspondence
    check is the value of the model the theorems above are about) *)
